@@ -5,7 +5,7 @@ outcome in seeded/<id>/meta.json (detected_by, status).  usage: tools/seedall.py
 import json, os, subprocess, sys, tempfile, shutil, glob
 from concurrent.futures import ThreadPoolExecutor
 V = '/verif'
-env = dict(os.environ, PATH='/opt/veriftools/go1.26.8/bin:' + os.environ['PATH'], GOFLAGS='-mod=mod', GOPROXY='off', GOSUMDB='off', GOTOOLCHAIN='local')
+env = dict(os.environ, PATH='/opt/veriftools/go1.26.8/bin:' + os.environ['PATH'], GOFLAGS='-mod=mod', GOPROXY='off', GOSUMDB='off', GOTOOLCHAIN='local', GOVC_WORKERS=str(max(2, 16 // int(os.environ.get('JOBS', '4')))))
 claimed = [c['property_id'] for c in json.load(open(V + '/MANIFEST.json'))['checks']]
 def one(sid):
     d = f'{V}/seeded/{sid}'
